@@ -1,7 +1,7 @@
 """C09 — conv-probe property (see vlib/props/convprops.py)."""
 from vlib.props import convprops as P, convcommon as cc
 from vlib import convgen as g
-globals().update(P.make('C09', "conv probe with AUTH letters (initial response, '=', bad base64, '*', unknown mechanism, 2-step exchanges with binary challenge) x TLS {plaintext, after STARTTLS, implicit} x AllowInsecureAuth x backend {AuthSession, none}; sweep + walks. non-trivial = at least one backend callback", ['C09_insecure_unreachable', 'C09_b64_roundtrip', 'C09_empty_initial_response', 'C09_never_on_insecure_connection', 'C09_at_most_once'], [('failed-handshake', P.hsfail_convs)], lambda a: cc.project(a, codes='exact', enh=False, drecs='none'), tls=True, configs=None))
+globals().update(P.make('C09', "conv probe with AUTH letters (initial response, '=', bad base64, '*', unknown mechanism, 2-step exchanges with binary challenge) x TLS {plaintext, after STARTTLS, implicit} x AllowInsecureAuth x backend {AuthSession, none}; sweep + walks. non-trivial = at least one backend callback", ['C09_insecure_unreachable', 'C09_b64_roundtrip', 'C09_empty_initial_response', 'C09_never_on_insecure_connection', 'C09_at_most_once', 'C09_client_exchange_rules'], [('failed-handshake', P.hsfail_convs)], lambda a: cc.project(a, codes='exact', enh=False, drecs='none'), tls=True, configs=None))
 
 # --- client half: the real Client.Auth against a scripted peer -----------------------------------------------
 from vlib.core import Group as _Group
